@@ -246,4 +246,30 @@ theorem quoted_paragraph_is_prefixed_greedy (cfg : Cfg) (d : Deco) (w w' : Nat) 
     intro l _
     exact rlineChars_prefixLine [] d.quotePrefix l
 
+open H2T.Spec H2T.C04 in
+/-- **…under `max_wrap_width(m)`: the effective width is `min m (w − prefix)`, not `min m w`** — the clamp is applied inside
+    the sub-renderer, against the width `width_minus` granted -/
+theorem quoted_paragraph_is_prefixed_greedy_maxwrap (cfg : Cfg) (d : Deco) (w w' m : Nat) (s : List Ch) (hfn : cfg.footnotes = false)
+    (hw : w ≠ 0) (hm : 1 ≤ m) (hww : cfg.wrapWidth = some m) (hpad : cfg.padBlocks = false) (hov : cfg.overflow = false)
+    (hw' : SubR.widthMinus { width := w } cfg (dispW d.quotePrefix)
+      ((sizeOf d cfg.minWrap (.box {} .quote [.box {} .block [.text {} s]])).minW - dispW d.quotePrefix) = .ok w') (hw'0 : 1 ≤ w')
+    (hpos : ∀ wd ∈ words s, 0 < lwc wd) :
+    (renderTree cfg d w (.box {} .quote [.box {} .block [.text {} s]])).map (fun ls => ls.map rlineChars) =
+      (greedy (min m w') (words s)).map (fun ls => ls.map (d.quotePrefix ++ ·)) := by
+  rw [quote_is_prefixed_content cfg d w w' _ hfn hw hw' (by omega)]
+  have hcont : renderTree cfg d w' (.box {} .container [.box {} .block [.text {} s]]) = renderTree cfg d w' (.box {} .block [.text {} s]) := by
+    unfold renderTree
+    simp only [compile_container, compileList, List.append_nil]
+  rw [hcont]
+  have hg := paragraph_is_greedy_maxwrap cfg d w' m hw'0 hm hww hpad hov s hpos
+  rw [← hg]
+  cases hr : renderTree cfg d w' (.box {} .block [.text {} s]) with
+  | error e => rfl
+  | ok ls =>
+    simp only [Except.map, zipPrefix_same, List.map_map]
+    congr 1
+    apply List.map_congr_left
+    intro l _
+    exact rlineChars_prefixLine [] d.quotePrefix l
+
 end H2T.C07
